@@ -530,6 +530,6 @@ def enum_cases(tier):
 SUBCHECKS = [
     Sub("enum", check, kind="enum", cases=enum_cases, nontrivial=nontrivial, classes=classes, exhaustive=True,
         doc="~28 fixed 1-2 step pipelines over ALL chunkings of (5,), (4,3), (2,3,2); every block computed via .blocks and to_delayed"),
-    Sub("pipelines", check, strategy=lambda tier: pipeline(), n={"quick": 1400, "thorough": 30000}, nontrivial=nontrivial, classes=classes,
+    Sub("pipelines", check, strategy=lambda tier: pipeline(), n={"quick": 1200, "thorough": 30000}, nontrivial=nontrivial, classes=classes,
         doc="typed random pipelines of 2-6 operations; all clauses checked after every step"),
 ]
